@@ -192,7 +192,14 @@ func c18TourB(emailAuth bool) []tourStep {
 			c := w.Browsers[b].Session["sms_secret"]
 			return flows.SMSRemove(s, b, c, ""), c != ""
 		}),
-		// a second browser: an account that already has TOTP logs in and switches it off with a recovery code
+		// a second browser: the SMS account completes its login with a recovery code
+		reqStep("login(B2,u2,pw)#sms-pending", "", func(s *world.Stack, w *world.World) (world.Req, bool) { return flows.Login(s, "B2", U2, P2, false), true }),
+		reqStep("sms-validate(B2,rc:live)", "", func(s *world.Stack, w *world.World) (world.Req, bool) {
+			v, ok := liveVal(w, "rc", U2)
+			return flows.SMSValidate(s, "B2", "", v), ok
+		}),
+		reqStep("logout(B2)", "", func(s *world.Stack, w *world.World) (world.Req, bool) { return flows.Logout(s, "B2"), true }),
+		// ... and an account that already has TOTP logs in and switches it off with a recovery code
 		reqStep("login(B2,u4,pw)#pending", "", func(s *world.Stack, w *world.World) (world.Req, bool) { return flows.Login(s, "B2", c18U4, P3, false), true }),
 		reqStep("totp-validate(B2,code)", "", func(s *world.Stack, w *world.World) (world.Req, bool) {
 			sec := w.DB.Users[c18U4].TOTPSecretKey
